@@ -271,7 +271,10 @@ func (handler *HeadersHandler) Handle(ctx context.Context, m wire.Message) ([]wi
 		logger.Verbose(ctx, "Unknown header : %s", hash)
 		logger.Verbose(ctx, "Previous hash : %s", header.PrevBlock)
 		handler.state.ClearInSync()
-		return nil, nil //errors.New(fmt.Sprintf("Unknown header : %s", hash))
+
+		// The headers before this one may have put blocks into the request window. They still have to
+		// be requested, so stop here without dropping the requests collected so far.
+		break
 	}
 
 	// Add any non-full requests.
